@@ -6,6 +6,7 @@ package main
 
 import (
 	"bytes"
+	"encoding/binary"
 	"fmt"
 	"io"
 	"iter"
@@ -71,8 +72,9 @@ type reply struct {
 	Status int
 	// "" = scripted channel; otherwise the reply is served by a real HTTP server through transport/http's channel:
 	// cl (Content-Length), chunked (flushed, length unknown), close (HTTP/1.0, close-delimited), short (body shorter than Content-Length)
-	Framing string
-	CT      string // Content-Type override
+	Framing       string
+	CT            string // Content-Type override
+	NoInvocations int    // 1: client.Execute(nil, conn); 2: client.Execute(empty slice, conn)
 	// what the harness knows about the message it built (for the model)
 	HasMsg   bool        // the first root is a decodable agent message block that is present
 	Report   [][2]string // (key string, receipt link string); nil when absent
@@ -154,6 +156,11 @@ func guard(obs *c15Obs, what string, f func()) {
 
 func runClient(rp *reply, invs []invocation.Invocation, service ucan.Principal) *c15Obs {
 	obs := &c15Obs{Reads: map[string]string{}, Accessor: map[string]string{}}
+	if rp.NoInvocations == 1 {
+		invs = nil // the empty batch itself: client.Execute called with no invocations
+	} else if rp.NoInvocations == 2 {
+		invs = []invocation.Invocation{}
+	}
 	body := rp.Raw
 	if body == nil {
 		body = carBytes(rp.Roots, rp.Blocks)
@@ -482,6 +489,20 @@ func c15Replies(seed int64, tier string) ([]*reply, []invocation.Invocation, uca
 		add(&reply{Label: "no-roots", Roots: nil, Blocks: invBlocks(invs[0])})
 		add(&reply{Label: "two-roots", Roots: []ipld.Link{root.Link(), invs[0].Link()}, Blocks: append([]ipld.Block{root}, invBlocks(invs[0])...), HasMsg: true})
 	}
+	// 1b. the same replies to an EMPTY batch: client.Execute is called with no invocations at all
+	for _, k := range []int{1, 2} {
+		for _, base := range []string{"report-absent", "report-empty", "report-foreign-keys"} {
+			for _, rp := range replies {
+				if rp != nil && rp.Label == base {
+					c := *rp
+					c.NoInvocations = k
+					c.Label = fmt.Sprintf("%s (Execute called with %s)", base, []string{"", "nil", "an empty slice"}[k])
+					replies = append(replies, &c)
+					break
+				}
+			}
+		}
+	}
 	// 4b. blocks addressed by CIDs shorter than a sha2-256 CID (identity multihash, digest truncated to 20 bytes):
 	// both are valid under their own prefix, so the CAR reader delivers them; the message / receipt decoder must refuse
 	// them (or read them) without panicking
@@ -583,6 +604,19 @@ func c15Replies(seed int64, tier string) ([]*reply, []invocation.Invocation, uca
 			for bi, bodyv := range [][]byte{goodBytes, {}} {
 				overHTTP = append(overHTTP, &reply{Label: fmt.Sprintf("content-type %q framing=%q body=%d", ct, fr, bi), Status: 200, Framing: fr, Raw: bodyv, CT: ct,
 					Lookups: []ipld.Link{invs[0].Link()}})
+			}
+		}
+	}
+	// a valid header (and first section) followed by a section that announces a huge length
+	{
+		hdrLen := 0
+		if n, k := binaryUvarint(goodBytes); k > 0 {
+			hdrLen = k + int(n)
+		}
+		for _, v := range []uint64{1 << 63, 1<<63 + 1, 1<<64 - 1, 1<<63 - 1, 1 << 62, 1 << 32, 1 << 31, 33554433} {
+			for _, fr := range []string{"", "cl"} {
+				body := append(append(append([]byte{}, goodBytes[:hdrLen]...), uvarintBytes(v)...), goodBytes[hdrLen:]...)
+				overHTTP = append(overHTTP, &reply{Label: fmt.Sprintf("section length %d framing=%q", v, fr), Status: 200, Framing: fr, Raw: body, Lookups: []ipld.Link{invs[0].Link()}})
 			}
 		}
 	}
@@ -707,6 +741,8 @@ func init() {
 			"classes": classes, "http_framings": framings, "direct_violations": direct, "panic_list": panics, "distinct_signatures": sigs, "samples": samples})
 	}
 }
+
+func binaryUvarint(b []byte) (uint64, int) { return binary.Uvarint(b) }
 
 func countNonEmpty(xs []string) int {
 	n := 0
